@@ -93,7 +93,10 @@ def m_str_misc(ex, f, a):
             if off > i: return False
         return False
     t = pystr(s_)
-    if op == 'contains': return pystr(Str(pat())) in t
+    if op == 'contains':
+        p1 = ex.deref(a[1])
+        if isinstance(p1, Agg) and p1.ty == 'array': return any(chr(c) in t for c in p1.fields)       # char-set pattern
+        return pystr(Str(pat())) in t
     if op in ('find', 'rfind'):
         k = (t.find if op == 'find' else t.rfind)(pystr(Str(pat())))
         return NONE() if k < 0 else some(len(t[:k].encode()))
